@@ -89,6 +89,7 @@ var props = map[string]propCfg{
 	"C16": {Focus: "C16", Arms: []string{"clean"}, Probes: []string{"c16_tc_seen", "c16_tcp_outcome_returned", "c16_no_tc"}},
 	"C07": {Focus: "C07", Arms: []string{"ample", "ample", "tiny"}, Probes: []string{"cache_hit", "c07_group_checked", "c07_compared_with_first_relay", "c07_hit_expected"}},
 	"C08": {Focus: "C08", Arms: []string{"clean"}, Probes: []string{"cache_hit", "c08_ttl_checked", "cache_hit_last_quarter"}},
+	"C18": {Focus: "C18", Arms: []string{"xclose", "rclose", "startfault", "xclose"}, Probes: []string{"c18_upstream_close_checked", "c18_router_close_checked", "c18_call_after_close", "c18_call_inflight_at_close"}},
 	"C19": {Focus: "C19", Arms: []string{"clean"}, Probes: []string{"cache_hit", "cache_hit_last_quarter", "c07_hit_expected"}},
 	"C09": {Focus: "C09", Arms: []string{"clean"}, Probes: []string{"c09_truncated", "c09_fits"}},
 	"C10": {Focus: "C10", Arms: []string{"clean", "startfault"}, Probes: []string{"c10_forward_checked", "c10_reject", "c10_refused"}},
